@@ -349,7 +349,9 @@ Return(e) ==
             <<"rt_maxfun_truth", {"C10"}, (sol /\ e.flag = 1) => e.nf = Cfg.maxfun>>,
             <<"rt_unsucc_truth", {"C10"}, (sol /\ unsuccOverride) => e.nruns >= Cfg.maxunsucc>>,
             <<"rt_success_finite", {"C10", "C08"}, (sol /\ e.flag = 0) => e.objfin>>,
-            <<"rt_flag_is_last_exit", {"C10"}, (sol /\ ~unsuccOverride /\ ~guard) => (e.flag = lastexit.flag /\ e.msgc = lastexit.msgc)>>,
+            <<"rt_flag_is_last_exit", {"C10", "C07"}, (sol /\ ~unsuccOverride /\ ~guard) =>
+                                                  (IF lastexit.flag = 4 THEN (e.flag = 1 /\ e.msgc = "maxfun")   \* a restart that the budget forbids is reported as the budget
+                                                   ELSE (e.flag = lastexit.flag /\ e.msgc = lastexit.msgc))>>,
             <<"rt_optimal", {"C05", "C06"}, Cfg.wantopt => (sol /\ e.flag = 0 /\ e.optok)>>,
             <<"rt_roundtrip", {"C20"}, sol => e.rt_ok>>,
             <<"rt_inputs_unmodified", {"C19"}, e.inputs_ok>>,
